@@ -100,13 +100,7 @@ func runC15(ctx *Ctx) {
 	// 2b. groups nested around protowire's recursion limit: Skip and ConsumeField agree
 	if ctx.Shard == 0 {
 		for _, n := range []int{1, 9999, 10000, 10001, 10002, 10003, 30000} {
-			var b []byte
-			for i := 0; i < n; i++ {
-				b = protowire.AppendTag(b, protowire.Number(1+i%5), protowire.StartGroupType)
-			}
-			for i := n - 1; i >= 0; i-- {
-				b = protowire.AppendTag(b, protowire.Number(1+i%5), protowire.EndGroupType)
-			}
+			b := nestedGroups(n)
 			c := &Case{Sub: "skip", Bytes: hexs(b)}
 			ctx.Eval(1)
 			if err := safely(func() error { return checkC15(ctx, c) }); err != nil {
@@ -114,6 +108,26 @@ func runC15(ctx *Ctx) {
 				c.Args = map[string]string{"nested_groups": fmt.Sprint(n)}
 				ctx.Violation(c, fmt.Sprintf("%d nested groups: %v", n, err))
 				ctx.T.Fail()
+			}
+		}
+	}
+
+	// 2c. many SIBLING groups at shallow depth: more start-group tags in one
+	// record than the nesting limit counts levels
+	if ctx.Shard == 1%ctx.NShards {
+		for _, n := range []int{9999, 10001, 10002, 25000} {
+			for _, inner := range []int{0, 1} {
+				b := siblingGroups(n, inner)
+				c := &Case{Sub: "skip", Bytes: hexs(b)}
+				ctx.Eval(1)
+				if err := safely(func() error { return checkC15(ctx, c) }); err != nil {
+					c.Bytes = trunc(c.Bytes, 200)
+					c.Args = map[string]string{"sibling_groups": fmt.Sprint(n), "inner": fmt.Sprint(inner)}
+					ctx.Violation(c, fmt.Sprintf("one group holding %d sibling groups (nesting depth %d): %v", n, 2+inner, err))
+					ctx.T.Fail()
+				} else {
+					ctx.Label("skip: thousands of sibling groups at shallow depth")
+				}
 			}
 		}
 	}
@@ -290,6 +304,29 @@ func runC15(ctx *Ctx) {
 	}, func(c *Case) error { return checkC15(ctx, c) })
 }
 
+func nestedGroups(n int) []byte {
+	var b []byte
+	for i := 0; i < n; i++ {
+		b = protowire.AppendTag(b, protowire.Number(1+i%5), protowire.StartGroupType)
+	}
+	for i := n - 1; i >= 0; i-- {
+		b = protowire.AppendTag(b, protowire.Number(1+i%5), protowire.EndGroupType)
+	}
+	return b
+}
+
+func siblingGroups(n, inner int) []byte {
+	b := protowire.AppendTag(nil, 1, protowire.StartGroupType)
+	for i := 0; i < n; i++ {
+		b = protowire.AppendTag(b, protowire.Number(2+i%3), protowire.StartGroupType)
+		if inner == 1 {
+			b = protowire.AppendTag(protowire.AppendTag(b, 9, protowire.StartGroupType), 9, protowire.EndGroupType)
+		}
+		b = protowire.AppendTag(b, protowire.Number(2+i%3), protowire.EndGroupType)
+	}
+	return protowire.AppendTag(b, 1, protowire.EndGroupType)
+}
+
 func modelU64(rt *rapid.T) uint64 {
 	return rapid.OneOf(rapid.Uint64(), rapid.Uint64Range(0, 1<<14), rapid.Custom(func(t *rapid.T) uint64 {
 		k := uint(rapid.IntRange(0, 63).Draw(t, "k"))
@@ -334,6 +371,13 @@ func checkC15(ctx *Ctx, c *Case) error {
 		}
 	case "skip":
 		b := unhex(c.Bytes)
+		// the big deterministic inputs are saved truncated: rebuilt from their parameters
+		if n := c.argInt("nested_groups"); n > 0 && len(b) < n {
+			b = nestedGroups(n)
+		}
+		if n := c.argInt("sibling_groups"); n > 0 && len(b) < n {
+			b = siblingGroups(n, c.argInt("inner"))
+		}
 		orig := append([]byte{}, b...)
 		n, err := runtime.Skip(b)
 		if !bytes.Equal(b, orig) {
